@@ -14,6 +14,14 @@ NREG, NPLAIN = 6, 4
 CONS = ["-", "-", "c:1:-8:8:1", "c:0:-8:8:0", "c:1:0:+inf:0", "c:0:0:+inf:0", "c:0:-inf:4:1", "c:1:-4:12:0", "c:0:-2:2:1"]
 
 
+TINY = 2.0 ** -28      # a nudged value token `n'` is n/4 + 2^-30, i.e. n + 2^-28 in quarter units
+
+
+def fmtq(q):
+    """value token: an integer number of quarters, or `n'` for a nudged one"""
+    return "%d" % q if isinstance(q, int) else "%d'" % int(q // 1)
+
+
 def accepts(con, q):
     if con == "-":
         return True
@@ -172,6 +180,15 @@ def gen_case(rng, tag, length, raise_p=0.5, soup=False):
                             ops.append("setv %d %s %d" % (j, e[0], q))
                             if accepts(e[2], q):
                                 e[1] = q
+            # a value that differs from the target's by 2^-30 only: it *is* a different value
+            if j != k and matching and rng.random() < 0.15:
+                e = rng.choice(matching)
+                t = sh.find(k, e[0])
+                if isinstance(t[1], int):
+                    q = t[1] + TINY
+                    ops.append("setv %d %s %s" % (j, e[0], fmtq(q)))
+                    if accepts(e[2], q):
+                        e[1] = q
         else:
             j = rng.choice(others)
             n_match = len(sh.l[k])
@@ -370,9 +387,13 @@ def gen_case(rng, tag, length, raise_p=0.5, soup=False):
 
     def op_copy():
         k = nonempty()
-        if rng.random() < 0.5:
+        r = rng.random()
+        if r < 0.35:
             j = plain()
             ops.append("copy %d %d" % (k, j))
+        elif r < 0.5:
+            j = plain()
+            ops.append("clone %d %d" % (k, j))
         else:
             j = reg()
             ops.append("assign %d %d" % (k, j))
@@ -410,10 +431,114 @@ def gen_case(rng, tag, length, raise_p=0.5, soup=False):
             ops.append("has %d %s" % (k, n))
         elif r < 0.7:
             ops.append("getv %d %s" % (k, n))
-        elif r < 0.85:
+        elif r < 0.78:
             ops.append("names %d" % k)
-        else:
+        elif r < 0.84:
             ops.append("size %d" % k)
+        elif r < 0.92:
+            ops.append("param %d %s" % (k, n))
+        else:
+            ops.append("at %d %d" % (k, rng.randrange(len(have) + 2)))
+
+    def short_of(k, n):
+        return n[len(sh.pre[k]):] if sh.pre[k] and n.startswith(sh.pre[k]) else n
+
+    def op_apquery():
+        k = apreg()
+        have = sh.names(k)
+        full = rng.choice(have) if have and rng.random() > raise_p * 0.5 else sh.pre[k] + rng.choice(NAMES)
+        # the owner prepends its prefix: mostly ask with the short name, sometimes with the full one
+        n = short_of(k, full) if rng.random() < 0.8 else full
+        n = n if n else "-"
+        r = rng.random()
+        if r < 0.2:
+            ops.append("ap.has %d %s" % (k, n))
+        elif r < 0.4:
+            ops.append("ap.param %d %s" % (k, n))
+        elif r < 0.55:
+            ops.append("ap.getv %d %s" % (k, n))
+        elif r < 0.7:
+            ops.append("ap.at %d %d" % (k, rng.randrange(len(have) + 2)))
+        elif r < 0.88:
+            ops.append("ap.nons %d %s" % (k, full if rng.random() < 0.7 else rng.choice(NAMES)))
+        elif r < 0.94:
+            ops.append("ap.size %d" % k)
+        else:
+            ops.append("ap.names %d" % k)
+
+    def op_apmut():
+        """the protected forwarders of the owner (addParameter_ & co)"""
+        k = apreg()
+        r = rng.random()
+        have = sh.names(k)
+        if r < 0.3:
+            con = rng.choice(CONS)
+            if have and rng.random() < raise_p * 0.6:
+                n = rng.choice(have)
+            else:
+                # mostly under the namespace; sometimes a bare name (the class does not enforce the prefix)
+                n = (sh.pre[k] if rng.random() < 0.8 else "") + rng.choice(NAMES)
+            q = inside(rng, con)
+            ops.append("ap.addp %d %s %d %s" % (k, n, q, con))
+            if n not in have:
+                sh.l[k].append([n, q, con])
+        elif r < 0.34:
+            ops.append("ap.addnull %d" % k)
+        elif r < 0.44:
+            j = nonempty()
+            ops.append("ap.addall %d %d" % (k, j))
+            for e in list(sh.l[j]):
+                if sh.find(k, e[0]):
+                    break
+                sh.l[k].append(list(e))
+        elif r < 0.56:
+            j = nonempty()
+            hj = sh.names(j)
+            n = rng.choice(hj) if hj and rng.random() > raise_p * 0.3 else "zz"
+            ops.append("ap.share %d %d %s" % (k, j, n))
+            e = sh.find(j, n)
+            if e:
+                t = sh.find(k, n)
+                if t:
+                    if accepts(t[2], e[1]):
+                        t[1] = e[1]
+                elif k != j:
+                    sh.l[k].append(list(e))
+        elif r < 0.64:
+            j = nonempty()
+            kind = rng.choice(["ap.shareall", "ap.include"])
+            ops.append("%s %d %d" % (kind, k, j))
+            for e in list(sh.l[j]):
+                t = sh.find(k, e[0])
+                if t:
+                    if accepts(t[2], e[1]):
+                        t[1] = e[1]
+                    else:
+                        break
+                else:
+                    sh.l[k].append(list(e))
+        elif r < 0.74:
+            n = len(sh.l[k])
+            i = rng.randrange(n) if n and rng.random() > raise_p * 0.7 else n + rng.randint(0, 1)
+            ops.append("ap.deli %d %d" % (k, i))
+            if i < n:
+                del sh.l[k][i]
+        elif r < 0.84:
+            n = rng.choice(have) if have and rng.random() > raise_p * 0.6 else rng.choice(NAMES) + "z"
+            ops.append("ap.del %d %s" % (k, n))
+            if n in have:
+                sh.l[k] = [e for e in sh.l[k] if e[0] != n]
+        elif r < 0.96:
+            ns = some_names(k)
+            ops.append("ap.dels %d %s" % (k, " ".join(ns)))
+            for n in ns:
+                if n in sh.names(k):
+                    sh.l[k] = [e for e in sh.l[k] if e[0] != n]
+                else:
+                    break
+        else:
+            ops.append("ap.reset %d" % k)
+            sh.l[k] = []
 
     def op_ns():
         k = apreg()
@@ -434,7 +559,7 @@ def gen_case(rng, tag, length, raise_p=0.5, soup=False):
     for k in rng.sample(range(NREG), 2):
         fill(k, rng.randint(2, 5))
     table = [(op_add, 12), (bulk, 30), (op_setv, 9), (op_del, 12), (op_sub, 10), (op_merge, 12), (op_copy, 6),
-             (op_setp, 4), (op_query, 7), (op_ns, 1.5), (op_reset, 1.0)]
+             (op_setp, 4), (op_query, 8), (op_ns, 1.5), (op_reset, 1.0), (op_apquery, 4), (op_apmut, 6)]
     fns = [f for f, _ in table]
     wts = [w for _, w in table]
     while len(ops) < length:
@@ -468,7 +593,9 @@ def directed(rng):
                         q = o if o is not None else q
                     elif rng.random() < 0.3:
                         q = vals[i]
-                    ops.append("add 3 %s %d -" % (names[i], q))
+                        if rng.random() < 0.4 and accepts(cons[i], q + TINY):
+                            q = q + TINY      # next to the target's value, not equal to it
+                    ops.append("add 3 %s %s -" % (names[i], fmtq(q)))
                 if "setallv" not in kind and rng.random() < 0.5:
                     ops.append("add 3 %s 1 -" % rng.choice([x for x in NAMES if x not in names] or ["zz"]))
                 ops.append("%s %d 3" % (kind, k))
@@ -478,13 +605,308 @@ def directed(rng):
     return cases
 
 
+def directed_assign(rng):
+    """whole-parameter setters: the name without a partner at every position (first / middle / last)
+    or nowhere; an alias and a copy of the target alive; the call is repeated after the source has
+    been mended (a state reached after an earlier raise)"""
+    cases = []
+    n = 0
+    for kind in ["setps", "setallp", "matchps"]:
+        for size in range(1, 6):
+            for miss in list(range(size)) + [None]:
+                ops = []
+                names = rng.sample(NAMES, size)
+                cons = [rng.choice(CONS) for _ in names]
+                for nm, c in zip(names, cons):
+                    ops.append("add 0 %s %d %s" % (nm, inside(rng, c), c))
+                ops.append("shareall 1 0")
+                ops.append("copy 0 2")
+                order = list(range(size))
+                rng.shuffle(order)
+                stranger = rng.choice([x for x in NAMES if x not in names] or ["zz"]) + "z"
+                mend = None
+                for p_, i in enumerate(order):
+                    c2 = rng.choice(CONS)
+                    line = "add 3 %s %d %s" % (names[i], inside(rng, c2), c2)
+                    if miss is not None and p_ == miss:
+                        if kind == "setallp":
+                            mend = line          # this target name is left out of the source
+                            continue
+                        ops.append("add 3 %s 4 -" % stranger)   # a source name the target does not have
+                        mend = "del 3 %s" % stranger
+                    ops.append(line)
+                if kind != "setallp" and miss is None and rng.random() < 0.3:
+                    pass
+                ops.append("%s 0 3" % kind)
+                ops.append("names 0")
+                if mend and kind != "matchps":
+                    ops.append(mend)
+                    ops.append("%s 0 3" % kind)
+                ops.append("param 1 %s" % names[0])
+                ops.append("getv 2 %s" % names[0])
+                cases.append(["case assign%d %s size=%d miss=%s" % (n, kind, size, miss)] + ops)
+                n += 1
+    return cases
+
+
+def directed_owner(rng):
+    """the owner-level routes under a non-empty namespace: every position of the rejected entry for
+    the three bulk setters; setParameterValue accepted / rejected / unknown; the read routes"""
+    cases = []
+    n = 0
+    for pre in ["p.", "p.q."]:
+        for kind in ["ap.setvs", "ap.matchvs", "ap.setallv"]:
+            for size in range(1, 5):
+                for rej in list(range(size)) + [None]:
+                    ops = ["ap.ns 4 %s" % pre]
+                    shorts = rng.sample(NAMES, size)
+                    cons = [rng.choice(CONS[2:]) for _ in shorts]
+                    vals = [inside(rng, c) for c in cons]
+                    for nm, c, v in zip(shorts, cons, vals):
+                        ops.append("ap.addp 4 %s%s %d %s" % (pre, nm, v, c))
+                    ops.append("shareall 1 4")
+                    ops.append("clone 4 2")
+                    order = list(range(size))
+                    rng.shuffle(order)
+                    for p_, i in enumerate(order):
+                        q = inside(rng, cons[i])
+                        if rej is not None and p_ == rej:
+                            o = outside(rng, cons[i])
+                            q = o if o is not None else q
+                        elif rng.random() < 0.3:
+                            q = vals[i]
+                        ops.append("add 3 %s%s %d -" % (pre, shorts[i], q))
+                    if "setallv" not in kind and rng.random() < 0.5:
+                        ops.append("add 3 %s 1 -" % shorts[0])     # the short name: not a parameter of the owner
+                    ops.append("%s 4 3" % kind)
+                    ops.append("ap.names 4")
+                    ops.append("ap.getv 4 %s" % shorts[0])
+                    if rej is not None:
+                        # mend the offending value and call again
+                        i = order[rej]
+                        ops.append("setv 3 %s%s %d" % (pre, shorts[i], inside(rng, cons[i])))
+                        ops.append("%s 4 3" % kind)
+                    cases.append(["case owner%d %s pre=%s size=%d rej=%s" % (n, kind, pre, size, rej)] + ops)
+                    n += 1
+        # single values and read routes
+        for _ in range(6):
+            ops = ["ap.ns 5 %s" % pre]
+            shorts = rng.sample(NAMES, 3)
+            cons = [rng.choice(CONS[2:]) for _ in shorts]
+            for nm, c in zip(shorts, cons):
+                ops.append("ap.addp 5 %s%s %d %s" % (pre, nm, inside(rng, c), c))
+            ops.append("ap.addp 5 %s 1 -" % shorts[0])       # a bare name next to the prefixed one
+            ops.append("ap.addnull 5")
+            for nm, c in zip(shorts, cons):
+                o = outside(rng, c)
+                ops.append("ap.setv 5 %s %d" % (nm, inside(rng, c)))
+                if o is not None:
+                    ops.append("ap.setv 5 %s %d" % (nm, o))
+                ops.append("ap.setv 5 %s%s 1" % (pre, nm))  # the full name is not what the owner expects
+                ops.append("ap.has 5 %s" % nm)
+                ops.append("ap.has 5 %s%s" % (pre, nm))
+                ops.append("ap.param 5 %s" % nm)
+                ops.append("ap.getv 5 %s" % nm)
+                ops.append("ap.nons 5 %s%s" % (pre, nm))
+                ops.append("ap.nons 5 %s" % nm)
+            for i in range(6):
+                ops.append("ap.at 5 %d" % i)
+            ops.append("ap.size 5")
+            ops.append("ap.deli 5 %d" % rng.randrange(6))
+            ops.append("ap.del 5 %s%s" % (pre, shorts[1]))
+            ops.append("ap.dels 5 %s%s zz %s" % (pre, shorts[2], shorts[0]))
+            ops.append("ap.names 5")
+            cases.append(["case ownerread%d pre=%s" % (n, pre)] + ops)
+            n += 1
+    return cases
+
+
+def directed_delis(rng):
+    """index vectors: subsets in every order, an out-of-range index first / in the middle / last,
+    a repeated index (outside the property: modelled, clause delete_indices_general)"""
+    cases = []
+    n = 0
+    for size in range(1, 6):
+        for variant in ["subset", "subset", "oob-first", "oob-mid", "oob-last", "repeat", "repeat-oob", "all", "empty"]:
+            ops = []
+            names = rng.sample(NAMES, size)
+            for nm in names:
+                ops.append("add 0 %s %d -" % (nm, rng.randint(-8, 8)))
+            ops.append("shsubi 0 1 %s" % " ".join(map(str, range(size))))
+            idx = rng.sample(range(size), rng.randint(1, size))
+            if variant == "all":
+                idx = list(range(size)); rng.shuffle(idx)
+            elif variant == "empty":
+                idx = []
+            elif variant == "oob-first":
+                idx = [size + rng.randint(0, 2)] + idx
+            elif variant == "oob-mid":
+                idx.insert(len(idx) // 2, size + rng.randint(0, 2))
+            elif variant == "oob-last":
+                idx = idx + [size]
+            elif variant == "repeat":
+                idx.insert(rng.randint(0, len(idx)), rng.choice(idx))
+            elif variant == "repeat-oob":
+                idx = idx + [idx[0], size + 1]
+            ops.append("delis 0 %s" % " ".join(map(str, idx)))
+            ops.append("names 0")
+            ops.append("names 1")
+            # the same on an owner's list through deleteParameter_ / deleteParameters_
+            ops.append("ap.shareall 4 1")
+            ops.append("ap.deli 4 %d" % rng.randrange(size + 1))
+            ops.append("ap.names 4")
+            cases.append(["case delis%d size=%d %s" % (n, size, variant)] + ops)
+            n += 1
+    return cases
+
+
+def directed_ns(rng):
+    """setNamespace: guarded states (every name under the prefix, nothing shared: names must stay
+    unique — clause names_unique_namespace_partial), bare names and shared objects without a
+    collision, and the two colliding situations of the known finding"""
+    cases = []
+    n = 0
+    pres = ["-", "p.", "q.", "p.q.", "pp."]
+    for _ in range(24):
+        ops = []
+        p0 = rng.choice(pres[1:])
+        ops.append("ap.ns 4 %s" % p0)
+        shorts = rng.sample(NAMES, rng.randint(1, 5))
+        for nm in shorts:
+            c = rng.choice(CONS)
+            ops.append("ap.addp 4 %s%s %d %s" % (p0, nm, inside(rng, c), c))
+        ops.append("copy 4 0")
+        for _ in range(rng.randint(1, 4)):
+            ops.append("ap.ns 4 %s" % rng.choice(pres))
+            ops.append("ap.names 4")
+            ops.append("ap.has 4 %s" % shorts[0])
+            ops.append("ap.nons 4 %s%s" % (p0, shorts[0]))
+        ops.append("names 0")
+        cases.append(["case ns-guarded%d" % n] + ops); n += 1
+    for _ in range(12):
+        # bare names / shared objects, no collision
+        ops = ["ap.ns 4 p."]
+        shorts = rng.sample(NAMES, 3)
+        ops.append("ap.addp 4 p.%s 1 -" % shorts[0])
+        ops.append("ap.addp 4 %s 2 -" % shorts[1])             # bare, no collision with p.<shorts[0]>
+        ops.append("add 0 %s 3 -" % shorts[2])
+        ops.append("ap.share 4 0 %s" % shorts[2])              # shared with register 0
+        ops.append("ap.ns 4 %s" % rng.choice(["q.", "-", "p.q."]))
+        ops.append("names 0")
+        ops.append("ap.names 4")
+        ops.append("ap.ns 4 %s" % rng.choice(["q.", "-", "p."]))
+        ops.append("names 0")
+        cases.append(["case ns-bare-shared%d" % n] + ops); n += 1
+    for _ in range(6):
+        a = rng.choice(NAMES)
+        ops = ["ap.ns 4 p.", "ap.addp 4 %s 8 -" % a, "ap.addp 4 p.%s 12 -" % a, "ap.ns 4 %s" % rng.choice(["q.", "-", "p."]),
+               "ap.names 4", "ap.getv 4 %s" % a, "ap.setv 4 %s 5" % a, "ap.names 4"]
+        cases.append(["case ns-collision-own%d" % n] + ops); n += 1
+        ops = ["add 0 %s 4 -" % a, "add 0 p.%s 8 -" % a, "ap.share 4 0 %s" % a, "ap.ns 4 p.", "names 0",
+               "setv 0 p.%s 1" % a, "names 0"]
+        cases.append(["case ns-collision-shared%d" % n] + ops); n += 1
+    return cases
+
+
+def directed_misc(rng):
+    """clone, positional / by-name accessors at every position, getCommonParametersWith with
+    overlapping name sets and constrained entries, sub-lists after an earlier raise"""
+    cases = []
+    for n in range(30):
+        ops = []
+        size = rng.randint(1, 6)
+        names = rng.sample(NAMES, size)
+        for nm in names:
+            c = rng.choice(CONS)
+            ops.append("add 0 %s %d %s" % (nm, inside(rng, c), c))
+        ops.append("clone 0 1")
+        ops.append("shareall 2 0")
+        for i in range(size + 1):
+            ops.append("at %d %d" % (rng.choice([0, 1, 2]), i))
+        for nm in names[:3] + ["zz"]:
+            ops.append("param %d %s" % (rng.choice([0, 1, 2]), nm))
+        e = rng.randrange(size)
+        ops.append("setv 1 %s %d" % (names[e], rng.randint(-2, 2)))
+        ops.append("param 0 %s" % names[e])
+        other = rng.sample(NAMES, rng.randint(1, 5))
+        for nm in other:
+            c = rng.choice(CONS)
+            ops.append("add 3 %s %d %s" % (nm, inside(rng, c), c))
+        ops.append("common 0 3 1")
+        ops.append("common 3 0 2")
+        ops.append("common 0 0 1")
+        ops.append("subn 0 1 %s zz" % names[0])            # raises: register 1 keeps its list
+        ops.append("names 1")
+        ops.append("subn 0 1 %s" % " ".join(rng.sample(names, rng.randint(1, size))))
+        ops.append("testvs 0 3")
+        cases.append(["case misc%d" % n] + ops)
+    return cases
+
+
 def generate(seed, tier):
     rng = random.Random(seed)
     cases = directed(rng)
+    cases += directed_assign(rng) + directed_owner(rng) + directed_delis(rng) + directed_ns(rng) + directed_misc(rng)
     nrand = 30000 if tier == "thorough" else 2500
     for i in range(nrand):
         cases.append(gen_case(rng, "rnd%d" % i, rng.randint(12, 60)))
     return cases
+
+
+def _parse_state(ans):
+    """answer line -> list of registers, each a list of (name, q, con, obj); None when unparsable"""
+    segs = ans.split(" ;")
+    if len(segs) != NREG + 2:
+        return None
+    regs = []
+    for sg in segs[2:]:
+        es = []
+        for t in sg.split():
+            if t.startswith("pre="):
+                continue
+            f = t.rsplit(",", 3)
+            if len(f) != 4:
+                return None
+            try:
+                es.append((f[0], int(f[1][:-1]) + TINY if f[1].endswith("'") else int(f[1]), f[2], f[3]))
+            except ValueError:
+                return None
+        regs.append(es)
+    return regs
+
+
+_SRC_ITER = ("setvs", "matchvs", "matchvs0", "testvs", "ap.setvs", "ap.matchvs")
+_TWO_REG = _SRC_ITER + ("setallv", "ap.setallv", "setps", "setallp", "matchps", "include", "shareall", "addall",
+                        "common", "ap.addall", "ap.shareall", "ap.include")
+
+
+def _culprit(op, tgt, src):
+    """position class (first / middle / last / only) of the entry that makes the call raise, in the
+    order the routine iterates; None when nothing makes it raise"""
+    def find(l, n):
+        for e in l:
+            if e[0] == n:
+                return e
+        return None
+    if op in _SRC_ITER:
+        seq = [(e, find(tgt, e[0])) for e in src]
+        seq = [(e, t) for e, t in seq if t is not None]
+        bad = [i for i, (e, t) in enumerate(seq) if not accepts(t[2], e[1])]
+    elif op in ("setallv", "ap.setallv"):
+        seq = [(t, find(src, t[0])) for t in tgt]
+        bad = [i for i, (t, e) in enumerate(seq) if e is None or not accepts(t[2], e[1])]
+    elif op == "setps":
+        seq = list(src)
+        bad = [i for i, e in enumerate(seq) if find(tgt, e[0]) is None]
+    elif op == "setallp":
+        seq = list(tgt)
+        bad = [i for i, t in enumerate(seq) if find(src, t[0]) is None]
+    else:
+        return None
+    if not bad:
+        return None
+    i, m = bad[0], len(seq)
+    return "only" if m == 1 else "first" if i == 0 else "last" if i == m - 1 else "middle"
 
 
 def coverage_extra(cases, answers):
@@ -492,19 +914,72 @@ def coverage_extra(cases, answers):
     sizes = {}
     shared = 0
     total = 0
-    for a in answers:
-        for r in a or []:
+    per_op = {}
+    for c, a in zip(cases, answers):
+        prev = [[] for _ in range(NREG)]
+        raised_before = False
+        k = 0
+        for line in c[1:]:
+            if not line.strip() or line.startswith(("#", "=")):
+                continue
+            r = (a or [])[k] if a and k < len(a) else ""
+            k += 1
             total += 1
             head = r.split(" ;")[0].strip()
-            if head.startswith("exc:") or head in ("bad-op",):
+            is_exc = head.startswith("exc:")
+            if is_exc or head in ("bad-op",):
                 kinds[head] = kinds.get(head, 0) + 1
-            segs = r.split(" ;")[2:]
+            st = _parse_state(r)
             objs = []
-            for s in segs:
-                es = [t for t in s.split() if "," in t]
+            for es in (st or []):
                 sizes[len(es)] = sizes.get(len(es), 0) + 1
-                objs += [t.rsplit(",", 1)[1] for t in es]
+                objs += [e[3] for e in es]
             if len(objs) != len(set(objs)):
                 shared += 1
+            t = line.split()
+            op = t[0]
+            d = per_op.setdefault(op, {"n": 0, "raised": 0})
+            d["n"] += 1
+            d["raised"] += 1 if is_exc else 0
+            def bump(key):
+                d[key] = d.get(key, 0) + 1
+            if raised_before:
+                bump("after_an_earlier_raise")
+            try:
+                kk = int(t[1])
+            except (IndexError, ValueError):
+                kk = None
+            if kk is not None and kk < NREG:
+                tgt = prev[kk]
+                if any(e[2] != "-" for e in tgt):
+                    bump("target_constrained")
+                elif tgt:
+                    bump("target_unconstrained")
+                others = set(e[3] for j, es in enumerate(prev) if j != kk for e in es)
+                if any(e[3] in others for e in tgt):
+                    bump("target_shares_objects")
+                if op in _TWO_REG and len(t) > 2:
+                    try:
+                        jj = int(t[2])
+                    except ValueError:
+                        jj = None
+                    if jj is not None and jj < NREG:
+                        src = prev[jj]
+                        tn, sn = set(e[0] for e in tgt), set(e[0] for e in src)
+                        if tn & sn and (tn - sn or sn - tn):
+                            bump("names_overlap_partially")
+                        elif tn & sn:
+                            bump("names_equal")
+                        elif tn or sn:
+                            bump("names_disjoint")
+                        if jj == kk:
+                            bump("self_source")
+                        cl = _culprit(op, tgt, src)
+                        if cl:
+                            bump("culprit_" + cl)
+            if st is not None:
+                prev = st
+            raised_before = raised_before or is_exc
     return {"raised_by_kind": kinds, "list_size_histogram": {str(k): v for k, v in sorted(sizes.items())},
-            "answers_with_shared_objects_fraction": round(shared / total, 4) if total else 0.0}
+            "answers_with_shared_objects_fraction": round(shared / total, 4) if total else 0.0,
+            "op_states": {k: per_op[k] for k in sorted(per_op)}}
